@@ -598,12 +598,13 @@ def p_enclosing(base, crs, shape, pix_pts, region_crs=None):
     return (not bad), "; ".join(bad)
 
 
-def p_enclosing_xcrs(base, gcrs, shape, kind, coords, rcrs):
-    """GeoBox(shape, Affine(*base), gcrs).enclosing(region given in ANOTHER CRS rcrs): on the source grid, covers the
-    region and exceeds it by < 1 pixel per side.  Reference: the region's vertices mapped with a pyproj.Transformer
-    (always_xy=True) that pyproj builds from the two specs, then the exact inverse of the affine (Fractions); 1e-6
-    pixel slack for the projection.  kind: 'box' (polygon from two corners), 'polygon' (vertex list), 'bbox'
-    (BoundingBox from two corners).  base may be any float affine (north-up, mirrored, rotated)."""
+CHORD_KEY = "c16:enclosing-chord"      # open finding: only the vertices of a foreign-CRS region are projected
+
+
+def _enclosing_xcrs_eval(base, gcrs, shape, kind, coords, rcrs):
+    """returns (vertex-level violations, chord violations): the second list holds the axes on which every VERTEX of
+    the region is covered but points ON ITS EDGES (straight in the region's own CRS, sampled and projected with pyproj)
+    are not"""
     import pyproj
     import shapely
     from affine import Affine
@@ -614,7 +615,7 @@ def p_enclosing_xcrs(base, gcrs, shape, kind, coords, rcrs):
     G = GeoBox(tuple(shape), Affine(*[float(v) for v in base]), CRS(gcrs))
     if kind == "polygon":
         region = geom.polygon([tuple(c) for c in coords] + [tuple(coords[0])], rc)
-        verts = shapely.get_coordinates(region.geom).tolist()
+        verts = shapely.get_coordinates(region.geom).tolist()[:-1]
     else:
         (x0, y0), (x1, y1) = coords
         x0, x1, y0, y1 = min(x0, x1), max(x0, x1), min(y0, y1), max(y0, y1)
@@ -623,12 +624,18 @@ def p_enclosing_xcrs(base, gcrs, shape, kind, coords, rcrs):
     tr = pyproj.Transformer.from_crs(pyproj.CRS.from_user_input(rcrs), pyproj.CRS.from_user_input(gcrs), always_xy=True)
     fb = tuple(F(float(v)) for v in base)
     inv = ainv(fb)
-    pix = []
-    for x, y in verts:
+
+    def to_pix(x, y):
         X, Y = tr.transform(x, y)
-        pix.append(aapply(inv, (F(X), F(Y))))
+        return aapply(inv, (F(X), F(Y)))
+
+    pix = [to_pix(x, y) for x, y in verts]
+    m = 32     # points on every edge of the region
+    dense = []
+    for (xa, ya), (xb, yb) in zip(verts, verts[1:] + verts[:1]):
+        dense += [to_pix(xa + (xb - xa) * k / m, ya + (yb - ya) * k / m) for k in range(1, m)]
     E = G.enclosing(region)
-    bad = []
+    bad, chord = [], []
     T = amul(inv, aff_of(E.affine))
     tx, ty = round(T[2]), round(T[5])
     lin = max(abs(T[0] - 1), abs(T[1]), abs(T[3]), abs(T[4] - 1))
@@ -636,15 +643,37 @@ def p_enclosing_xcrs(base, gcrs, shape, kind, coords, rcrs):
         bad.append(f"not on the source grid: relative transform {tuple(float(v) for v in T)}, crs {E.crs}")
     slack = F(1, 10 ** 6)
     nx, ny = E.shape.x, E.shape.y
-    for lo, n, vals, ax in [(tx, nx, [q[0] for q in pix], "x"), (ty, ny, [q[1] for q in pix], "y")]:
+    for lo, n, k, ax in [(tx, nx, 0, "x"), (ty, ny, 1, "y")]:
+        vals = [q[k] for q in pix]
         mn, mx = min(vals), max(vals)
         if not (lo <= mn + slack and mx - slack <= lo + n):
-            bad.append(f"axis {ax}: pixels [{lo}, {lo + n}] do not cover the region [{float(mn):.4f}, {float(mx):.4f}]")
+            bad.append(f"axis {ax}: pixels [{lo}, {lo + n}] do not cover the region's vertices [{float(mn):.4f}, {float(mx):.4f}]")
         elif not (mn - lo < 1 + slack and (lo + n - mx < 1 + slack or n == 1)):
             bad.append(f"axis {ax}: pixels [{lo}, {lo + n}] exceed the region [{float(mn):.4f}, {float(mx):.4f}] by a pixel or more")
+        else:
+            dv = [q[k] for q in dense]
+            dmn, dmx = min(dv + [mn]), max(dv + [mx])
+            if not (lo <= dmn + F(1, 1000) and dmx - F(1, 1000) <= lo + n):
+                chord.append(f"axis {ax}: pixels [{lo}, {lo + n}] cover the vertices [{float(mn):.3f}, {float(mx):.3f}] but points on the "
+                             f"region's edges reach [{float(dmn):.3f}, {float(dmx):.3f}]")
         if n < 1:
             bad.append(f"axis {ax}: size {n}")
-    return (not bad), "; ".join(bad)
+    return bad, chord
+
+
+def p_enclosing_xcrs(base, gcrs, shape, kind, coords, rcrs):
+    """GeoBox(shape, Affine(*base), gcrs).enclosing(region given in ANOTHER CRS rcrs): on the source grid, covers the
+    region and exceeds it by < 1 pixel per side.  Reference: the region's vertices AND 31 points on each of its edges
+    mapped with a pyproj.Transformer (always_xy=True) that pyproj builds from the two specs, then the exact inverse of
+    the affine (Fractions); 1e-6 pixel slack for the vertices, 1e-3 for edge points.  kind: 'box' (polygon from two
+    corners), 'polygon' (vertex list), 'bbox' (BoundingBox from two corners).  base may be any float affine.
+    A failure on edge points alone is reported with the prefix 'chord:' (open finding c16:enclosing-chord)."""
+    bad, chord = _enclosing_xcrs_eval(base, gcrs, shape, kind, coords, rcrs)
+    if bad:
+        return False, "; ".join(bad)
+    if chord:
+        return False, "chord: " + "; ".join(chord)
+    return True, ""
 
 
 def p_enclosing_many_crs(gcrs, n, salt):
@@ -659,7 +688,8 @@ def p_enclosing_many_crs(gcrs, n, salt):
         custom = (f"+proj=tmerc +lat_0={-38 + (i % 9)} +lon_0={lon0} +k=0.9996 +x_0={500000 + i} +y_0={int(salt)} "
                   "+ellps=GRS80 +units=m +no_defs")
         args = xcrs_case(rng, gcrs, custom, custom=True)
-        ok, detail = p_enclosing_xcrs(*args)
+        bad, _chord = _enclosing_xcrs_eval(*args)     # the chord finding is judged by enclosing_xcrs itself
+        ok, detail = (not bad), "; ".join(bad)
         if not ok:
             return False, f"region CRS #{i} {custom!r}: enclosing_xcrs{core.short(args, 200)}: {detail}"
         if i % 50 == 49:
@@ -846,7 +876,9 @@ def xcrs_search(out, tier, rng, run, found):
         out.count("predicate:after_history:" + "+".join(hist) + ":" + name)
         out.case(("after", hist, name, json.dumps(args, default=str)), True)
         key = "after_history:" + "+".join(hist)
-        if not ok and key not in found:
+        if detail.startswith("chord:"):       # not an effect of the history: the open chord finding
+            key = CHORD_KEY[len("c16:"):]
+        if not ok and key not in found and ("c16:" + key) not in found:
             found[key] = True
             out.violation(f"c16:{key}", f"after {list(hist)}: {name}{core.short(args, 300)}: {detail}",
                           {"predicate": "after_history", "args": [list(hist), list(specs), name, list(args)], "observed": detail})
@@ -884,9 +916,10 @@ def search(out, tier):
             ok, detail = False, f"raised {type(e).__name__}: {e}"
         out.count("predicate:" + name)
         out.case(("pred", name, json.dumps(enc(list(args)), sort_keys=True)), True)
-        if not ok and name not in found:
-            found[name] = True
-            out.violation(f"c16:{name}", f"{name}: {detail}",
+        key = CHORD_KEY if detail.startswith("chord:") else f"c16:{name}"
+        if not ok and key not in found:
+            found[key] = True
+            out.violation(key, f"{name}: {detail}",
                           {"predicate": name, "args": enc(list(args)), "observed": detail})
 
     for rp in core.corpus(ID):
@@ -1064,8 +1097,10 @@ META = {
              "property's quantifier); 'smallest containing' is stated on operand rectangles (an empty operand still extends the union, as "
              "in the code); enclosing's right/bottom excess is < 1 except for regions degenerate at an integer pixel coordinate (max(1, span)); "
              "accepted-pair rounding claim needs tol <= 1/2; a non-invertible reference affine raises affine.TransformNotInvertibleError "
-             "(not a ValueError) - stated in C16_rejection_error_kind.  Not proved: cross-CRS enclosing beyond the oracle boundary "
-             "(tested by the search with a 1e-6 pixel slack)."),
+             "(not a ValueError) - stated in C16_rejection_error_kind.  Not proved: cross-CRS enclosing beyond the oracle boundary: "
+             "the theorem speaks about the region's vertices in the GeoBox's CRS (which covers every straight-edged region in that CRS); "
+             "for a region given in ANOTHER CRS the code projects the vertices only, and the search (enclosing_xcrs: vertices and 31 points "
+             "per edge projected with pyproj directly) shows that curved edges are then not covered - open finding c16:enclosing-chord."),
     "technique": "Coq proof over hand-written Gallina model (Q/Z arithmetic, lattice folds) + exact differential correspondence (vm_compute) + property predicates on the implementation",
     "design_ref": "DESIGN.md section 5, C16",
 }
